@@ -1,5 +1,6 @@
 SPECIFICATION Spec
 CONSTANTS
   Menus <- MenusAll
+  FixConsistency = FALSE
 INVARIANTS AcceptOnlyConsistent
 CHECK_DEADLOCK FALSE
